@@ -93,7 +93,10 @@ func genHashKeys(r *kernel.RNG, n int) []hkey {
 		return true
 	}
 	for tries := 0; len(ks) < n && tries < 100; tries++ {
-		switch r.Weighted([]int{4, 3, 3, 2, 2, 2, 2, 2}) {
+		switch r.Weighted([]int{4, 3, 3, 2, 2, 2, 2, 2, 1}) {
+		case 8:
+			// a symbol whose name is a dotted path: either a key like any other or refused as a key, never half of each
+			add(hkey{"dotsym", r.Pick([]string{"p.q", "s.t.u", ".r", "a.b"})})
 		case 0:
 			add(hkey{"sym", r.Pick(hashSymNames)})
 		case 1:
@@ -135,6 +138,8 @@ func specCanon(k hkey) string {
 		return "arr:" + k.Text
 	case "symnum":
 		return "symnum:" + k.Text
+	case "dotsym":
+		return "sym:" + k.Text
 	}
 	return "?"
 }
@@ -152,6 +157,9 @@ func genHashScenario(r *kernel.RNG, tier string, i int) interface{} {
 	sc.Ctor = r.Pick([]string{"hash", "hash", "curly", "empty", "msgmap"})
 	if sc.Ctor != "empty" {
 		for _, j := range r.Perm(len(sc.Keys)) {
+			if sc.Keys[j].Kind == "dotsym" {
+				continue
+			}
 			if r.Chance(0.4) {
 				sc.Init = append(sc.Init, j)
 			}
@@ -408,6 +416,8 @@ func execHash(body json.RawMessage) *kernel.Result {
 		switch k.Kind {
 		case "sym":
 			src[i] = "%" + k.Text
+		case "dotsym":
+			src[i] = "(quote " + k.Text + ")"
 		case "str":
 			src[i] = strconv.Quote(k.Text)
 		case "int", "chr", "arrN":
@@ -770,6 +780,11 @@ func execHash(body json.RawMessage) *kernel.Result {
 				res.Probe("write-by-dot-path")
 			}
 			o := ev(text)
+			if !o.OK() && !o.Panicked && sc.Keys[op.K].Kind == "dotsym" {
+				// refused as a key: nothing may have changed (the observation below decides)
+				res.Probe("dotted-key-refused")
+				break
+			}
 			if !o.OK() {
 				site := "hset"
 				if o.Panicked {
